@@ -81,22 +81,22 @@ class Built:
             k = d[0]
             if k == "vec":
                 _, name, n, lb, ub = d
-                self.objs[name] = optyx.VectorVariable(name, n, lb=lb, ub=ub)
+                self.objs["v:" + name] = optyx.VectorVariable(name, n, lb=lb, ub=ub)
                 for i in range(n):
                     self.decl_bounds[f"{name}[{i}]"] = (lb, ub)
             elif k == "mat":
                 _, name, r, c, sym, lb, ub = d
-                self.objs[name] = optyx.MatrixVariable(name, r, c, lb=lb, ub=ub, symmetric=sym)
+                self.objs["m:" + name] = optyx.MatrixVariable(name, r, c, lb=lb, ub=ub, symmetric=sym)
                 for i in range(r):
                     for j in range(c):
                         if not sym or j >= i:
                             self.decl_bounds[f"{name}[{i},{j}]"] = (lb, ub)
             elif k == "scalar":
                 _, name, lb, ub = d
-                self.objs[name] = optyx.Variable(name, lb=lb, ub=ub)
+                self.objs["s:" + name] = optyx.Variable(name, lb=lb, ub=ub)
                 self.decl_bounds[name] = (lb, ub)
             elif k == "param":
-                self.objs[d[1]] = optyx.Parameter(d[1], d[2])
+                self.objs["p:" + d[1]] = optyx.Parameter(d[1], d[2])
         terms_o = list(spec["objective"]) if spec["objective"] is not None else None
         cons = list(spec["constraints"])
         if order_seed:
@@ -132,9 +132,9 @@ class Built:
             return self.cache[r]
         k = r[0]
         if k == "vec":
-            o = self.objs[r[1]]
+            o = self.objs["v:" + r[1]]
         elif k == "slice":
-            o = self.objs[r[1]][slice(r[2], r[3], r[4])]
+            o = self.objs["v:" + r[1]][slice(r[2], r[3], r[4])]
         elif k == "row":
             o = self.mref(r[1])[r[2], :]
         elif k == "col":
@@ -156,7 +156,7 @@ class Built:
             return self.cache[r]
         k = r[0]
         if k == "mat":
-            o = self.objs[r[1]]
+            o = self.objs["m:" + r[1]]
         elif k == "T":
             o = self.mref(r[1]).T
         elif k == "sub":
@@ -225,7 +225,7 @@ class Built:
         if k == "trace":
             return self.mref(t[1]).trace()
         if k == "scalar":
-            return self.objs[t[1]]
+            return self.objs["s:" + t[1]]
         if k == "elem":
             return self.vref(t[1])[t[2]]
         if k == "melem":
@@ -233,7 +233,7 @@ class Built:
         if k == "const":
             return Constant(t[1])
         if k == "param":
-            return self.objs[t[1]]
+            return self.objs["p:" + t[1]]
         if k == "neg":
             return -self.term(t[1])
         if k == "mul":
@@ -341,6 +341,122 @@ def observe(built):
 
 def rand_bounds(rng):
     return rng.choice([(None, None), (0.0, None), (None, 2.5), (-1.0, 1.0), (0.0, 0.0)])
+
+
+# ---- the name grammar: base names of scalars, vectors AND matrices with digit runs of different lengths, leading
+# zeros, digits in the middle, names that are prefixes of one another, bracket / comma characters; the natural order
+# is a property of the *name* only, whoever created the Variable.
+
+STEMS = ["w", "x", "a", "ab", "Z", "_", "q.", "k[", "m,", "v]", "é", ""]
+DIGITS = ["1", "2", "10", "02", "007", "9", "12", "100", "0", "3", "20", "010"]
+
+
+def name_family(rng):
+    """related base names: one stem with digit runs of several lengths, mid-name digits, prefixes"""
+    st = rng.choice(STEMS)
+    pool = {st, st + "b"} if st else set()
+    for d in rng.sample(DIGITS, 6):
+        pool.add(st + d)
+        if rng.random() < 0.4:
+            pool.add(st + d + rng.choice(["b", "_", "b" + rng.choice(DIGITS), "[", ","]))
+    if rng.random() < 0.5:
+        st2 = rng.choice(STEMS)
+        pool |= {st2 + d for d in rng.sample(DIGITS, 3)}
+    pool.discard("")
+    return sorted(p for p in pool if '"' not in p)
+
+
+def element_names(decl):
+    k = decl[0]
+    if k == "vec":
+        return [f"{decl[1]}[{i}]" for i in range(decl[2])]
+    if k == "mat":
+        return [f"{decl[1]}[{i},{j}]" for i in range(decl[2]) for j in range(decl[3]) if not decl[4] or j >= i]
+    if k == "scalar":
+        return [decl[1]]
+    return []
+
+
+def names_unique(decls):
+    seen = set()
+    for d in decls:
+        for n in element_names(d):
+            if n in seen:
+                return False
+            seen.add(n)
+    return True
+
+
+def pick_container_names(rng):
+    """names for the two vectors and two matrices of gen_spec: the historical ones or a grammar family"""
+    if rng.random() < 0.45:
+        return "x", "y2", "A", "S", []
+    fam = name_family(rng)
+    vx, vy = rng.sample(fam, 2)
+    ma, ms = rng.choice(fam), rng.choice(fam)
+    while ms == ma:
+        ms = rng.choice(fam + ["S"])
+    return vx, vy, ma, ms, fam
+
+
+def gen_names_spec(rng):
+    """every declared scalar, vector and matrix is mentioned; their base names come from one family, so the natural
+    order interleaves scalars, vector elements and matrix entries and depends on numbers inside the base names"""
+    for _ in range(50):
+        fam = name_family(rng)
+        decls = []
+        for nm in rng.sample(fam, min(len(fam), rng.randint(2, 4))):
+            decls.append(["vec", nm, rng.choice([1, 2, 3, 11, 12]), *rand_bounds(rng)])
+        for nm in rng.sample(fam, min(len(fam), rng.randint(1, 2))):
+            r_ = rng.randint(1, 3)
+            sym = rng.random() < 0.3
+            decls.append(["mat", nm, r_, r_ if sym else rng.choice([1, 2, 11]), sym, *rand_bounds(rng)])
+        for nm in rng.sample(fam, min(len(fam), rng.randint(2, 5))):
+            decls.append(["scalar", nm, *rand_bounds(rng)])
+        if names_unique(decls):
+            break
+    else:
+        decls = [["vec", "w2", 3, None, None], ["vec", "w10", 2, None, None], ["scalar", "w3", None, None]]
+    terms = []
+    for d in decls:
+        if d[0] == "vec":
+            terms.append(rng.choice([["vsum", ["vec", d[1]]], ["lc", ["vec", d[1]]], ["dotself", ["vec", d[1]]],
+                                     ["esum", ["vmul", 2.0, ["vec", d[1]]]], ["vsum", ["slice", d[1], None, None, -1]]]))
+        elif d[0] == "mat":
+            terms.append(rng.choice([["msum", ["mat", d[1]]], ["frob", ["mat", d[1]]], ["msum", ["T", ["mat", d[1]]]],
+                                     ["mesum", ["mat", d[1]]]]))
+        else:
+            terms.append(rng.choice([["scalar", d[1]], ["mul", 2.0, ["scalar", d[1]]], ["sq", ["scalar", d[1]]]]))
+    rng.shuffle(terms)
+    k = rng.randint(1, len(terms))
+    obj = terms[:k]
+    cons = [[t, rng.choice(["<=", ">=", "=="]), rng.choice([1.0, 0, 2.5])] for t in terms[k:]]
+    for _ in range(rng.randint(0, 2)):
+        cons.append([rng.choice(terms), rng.choice(["<=", ">="]), 1.0])
+    return {"kind": "names", "decls": decls, "objective": obj, "constraints": cons, "maximize": rng.random() < 0.3}
+
+
+def names_cover():
+    """fixed name families: digit runs of different lengths in the base name of vectors / matrices / scalars"""
+    out = []
+
+    def all_of(decls):
+        terms = []
+        for d in decls:
+            terms.append(["vsum", ["vec", d[1]]] if d[0] == "vec" else ["msum", ["mat", d[1]]] if d[0] == "mat" else ["scalar", d[1]])
+        out.append({"kind": "names", "decls": decls, "objective": terms, "constraints": []})
+        out.append({"kind": "names", "decls": decls, "objective": terms[-1:], "constraints": [[t, "<=", 1.0] for t in terms[:-1]]})
+    for st in ("w", "x", "a2b", "", "k[", "m,"):
+        all_of([["vec", st + "2", 2, 0.0, None], ["vec", st + "10", 2, None, 1.0], ["scalar", st + "3", -1.0, 1.0]])
+        all_of([["vec", st + "02", 1, None, None], ["vec", st + "2", 1, 0.0, 0.0], ["vec", st + "1", 11, None, None],
+                ["scalar", st + "1", None, 2.5], ["scalar", st + "010", 0.0, None]])
+        all_of([["mat", st + "2", 2, 2, False, None, None], ["mat", st + "10", 1, 11, False, 0.0, None], ["vec", st + "9", 2, None, None],
+                ["scalar", st + "9", None, None], ["scalar", st + "10b", None, None]])
+        all_of([["mat", st + "3", 2, 2, True, None, None], ["vec", st + "3", 2, None, None], ["scalar", st + "3", None, None],
+                ["vec", st + "3b1", 2, None, None], ["vec", st + "3b10", 1, None, None], ["vec", st + "3b2", 1, None, None]])
+    all_of([["vec", "x", 2, None, None], ["vec", "x1", 2, None, None], ["vec", "x10", 1, None, None], ["vec", "x[", 2, None, None],
+            ["scalar", "x", None, None], ["scalar", "x1", None, None], ["scalar", "x[1", None, None]])
+    return out
 
 
 # ---- label collisions: distinct views that carry the same name and length but hold different elements.
@@ -456,35 +572,42 @@ def collision_cover():
 
 
 def gen_spec(rng, force=None):
-    kind = force or rng.choice(["shortcut", "shortcut", "nearmiss", "general", "general", "general", "collision"])
+    kind = force or rng.choice(["shortcut", "shortcut", "nearmiss", "general", "general", "general", "collision", "names", "names"])
     if kind == "collision":
         return gen_collision_spec(rng)
+    if kind == "names":
+        return gen_names_spec(rng)
     n = rng.randint(1, 12)
     lbx, ubx = rand_bounds(rng)
-    decls = [["vec", "x", n, lbx, ubx], ["vec", "y2", rng.randint(1, 4), *rand_bounds(rng)],
-             ["mat", "A", rng.randint(1, 3), rng.randint(1, 3), False, *rand_bounds(rng)],
-             ["mat", "S", rng.randint(1, 3), 0, True, *rand_bounds(rng)], ["param", "p", 1.5]]
-    decls[3][3] = decls[3][2]
-    scal = rng.sample(SCALAR_NAMES, rng.randint(2, 6))
-    for s in scal:
-        decls.append(["scalar", s, *rand_bounds(rng)])
+    for _try in range(50):
+        X, Y, A, S, fam = pick_container_names(rng)
+        decls = [["vec", X, n, lbx, ubx], ["vec", Y, rng.randint(1, 4), *rand_bounds(rng)],
+                 ["mat", A, rng.randint(1, 3), rng.randint(1, 3), False, *rand_bounds(rng)],
+                 ["mat", S, rng.randint(1, 3), 0, True, *rand_bounds(rng)], ["param", "p", 1.5]]
+        decls[3][3] = decls[3][2]
+        pool = SCALAR_NAMES + fam + fam
+        scal = rng.sample(sorted(set(pool)), rng.randint(2, 6))
+        for s in scal:
+            decls.append(["scalar", s, *rand_bounds(rng)])
+        if names_unique(decls):
+            break
     nA_r, nA_c, nS = decls[2][2], decls[2][3], decls[3][2]
 
     def a_vref():
         c = rng.random()
         if c < 0.25:
-            return ["vec", "x"]
+            return ["vec", X]
         if c < 0.5:
             b = lambda: rng.choice([None, None] + list(range(-n, n + 1)))  # noqa: E731
             for _ in range(20):
                 a_, b_, s_ = b(), b(), rng.choice([None, 1, 2, -1, -2, 3])
                 if len(range(n)[slice(a_, b_, s_)]) > 0:
-                    return ["slice", "x", a_, b_, s_]
-            return ["slice", "x", None, None, -1]
+                    return ["slice", X, a_, b_, s_]
+            return ["slice", X, None, None, -1]
         if c < 0.6:
-            return ["vec", "y2"]
-        m = rng.choice([["mat", "A"], ["T", ["mat", "A"]], ["mat", "S"], ["T", ["mat", "S"]]])
-        r_, c_ = (nA_r, nA_c) if m in (["mat", "A"],) else (nA_c, nA_r) if m[0] == "T" and m[1] == ["mat", "A"] else (nS, nS)
+            return ["vec", Y]
+        m = rng.choice([["mat", A], ["T", ["mat", A]], ["mat", S], ["T", ["mat", S]]])
+        r_, c_ = (nA_r, nA_c) if m in (["mat", A],) else (nA_c, nA_r) if m[0] == "T" and m[1] == ["mat", A] else (nS, nS)
         cc = rng.random()
         if cc < 0.4:
             return ["row", m, rng.randint(0, r_ - 1)]
@@ -523,23 +646,23 @@ def gen_spec(rng, force=None):
         if c < 0.5:
             return ["mul", rng.choice([2.0, -1.0, 0.5]), ["scalar", rng.choice(scal)]]
         if c < 0.56:
-            return ["dot", ["vec", "x"], ["slice", "x", None, None, -1]]
+            return ["dot", ["vec", X], ["slice", X, None, None, -1]]
         if c < 0.62:
             return ["esum", rng.choice([["vadd", a_vref(), 1.0], ["vmul", 2.0, a_vref()], ["vneg", a_vref()]])]
         if c < 0.68:
             return rng.choice([["l2", a_vref()], ["l1", a_vref()], ["qf", a_vref()], ["qfrw", a_vref()]])
         if c < 0.76:
-            return rng.choice([["msum", ["mat", "A"]], ["msum", ["mat", "S"]], ["msum", ["T", ["mat", "A"]]], ["mesum", ["mat", "S"]],
-                               ["frob", ["mat", "A"]], ["frob", ["mat", "S"]], ["trace", ["mat", "S"]]])
+            return rng.choice([["msum", ["mat", A]], ["msum", ["mat", S]], ["msum", ["T", ["mat", A]]], ["mesum", ["mat", S]],
+                               ["frob", ["mat", A]], ["frob", ["mat", S]], ["trace", ["mat", S]]])
         if c < 0.82:
-            return ["elem", ["vec", "x"], rng.randint(-n, n - 1)]
+            return ["elem", ["vec", X], rng.randint(-n, n - 1)]
         if c < 0.88:
-            return ["melem", ["mat", "S"], rng.randint(0, nS - 1), rng.randint(0, nS - 1)]
+            return ["melem", ["mat", S], rng.randint(0, nS - 1), rng.randint(0, nS - 1)]
         if c < 0.92:
             return ["sq", ["scalar", rng.choice(scal)]]
         if c < 0.96:
             return ["sin", ["add", ["scalar", rng.choice(scal)], ["const", 1.0]]]
-        return ["dotve", ["vec", "x"], ["vmul", 2.0, ["vec", "x"]]]
+        return ["dotve", ["vec", X], ["vmul", 2.0, ["vec", X]]]
 
     cons = []
     if kind in ("shortcut", "nearmiss"):
@@ -562,9 +685,9 @@ def gen_spec(rng, force=None):
             elif c < 0.7:
                 obj.append(["l2", v])
             elif c < 0.85:
-                obj.append(["elem", ["vec", "x"], 0])
+                obj.append(["elem", ["vec", X], 0])
             else:
-                cons.append([["vsum", ["vec", "y2"]], "<=", 4.0])
+                cons.append([["vsum", ["vec", Y]], "<=", 4.0])
     else:
         obj = [general_term() for _ in range(rng.randint(1, 4))]
         for _ in range(rng.randint(0, 4)):
@@ -647,10 +770,12 @@ def run(ctx) -> core.Report:
     thorough = ctx["tier"] == "thorough" or ctx["escalate"]
     rep = core.Report(rule="fixed specs (F17, F18, digit runs, stepped / reversed slices, symmetric and transposed matrices, no objective, "
                            "constants only) + label-collision family (distinct views with equal name and length, different elements, "
-                           "inside the single-vector shortcut) + seeded random problem specs; each built in several construction orders in-process and "
+                           "inside the single-vector shortcut) + name-grammar family (digit runs of different lengths, leading zeros, "
+                           "mid-name digits, prefixes, brackets in the BASE names of scalars, vectors and matrices that all occur in one "
+                           "problem) + seeded random problem specs; each built in several construction orders in-process and "
                            "under several PYTHONHASHSEEDs; non-trivial = distinct specs with at least two variables")
     n_rand = 6000 if thorough else 700
-    specs = [dict(s) for s in FIXED_SPECS] + collision_cover() + [gen_spec(rng) for _ in range(n_rand)]
+    specs = [dict(s) for s in FIXED_SPECS] + collision_cover() + names_cover() + [gen_spec(rng) for _ in range(n_rand)]
     orders = [0, 1, 2, 3] if not thorough else [0, 1, 2, 3, 4, 5]
     hashseeds = [0, 1, 2] if not thorough else [0, 1, 2, 3, 4, 5, 6, 7]
 
